@@ -213,9 +213,16 @@ Definition ps_concat (rhs p : pset) : pset :=
 (* ParticleSet.cpp:78-83: lhs is taken by value (a copy), then += *)
 Definition ps_plus (lhs rhs : pset) : pset := ps_concat rhs (ps_copy lhs).
 
-(* augmentWithNoise is inherited, non-virtual: it does not know about state_ *)
+(* ParticleSet.cpp:54-66: the override calls the base class, then augments the particle states *)
 Definition ps_augment (q : mx) (p : pset) : bool * pset :=
-  let r := gm_augment q (base p) in (fst r, mkPs (snd r) (state_ p)).
+  let r := gm_augment q (base p) in
+  if negb (fst r) then (false, p)
+  else
+    let g := snd r in
+    let dim_added := mrows q in
+    let s1 := e_cresize_rows (state_ p) (dim g) in
+    let s2 := e_set_block s1 (mrows s1 - dim_added) 0 (e_zero dim_added (components g)) in
+    (true, mkPs g s2).
 
 Definition ps_fill (b : Z) (p : pset) : pset :=
   let g := gm_fill b (base p) in
@@ -256,6 +263,24 @@ Definition ps_apply (o : pop) (p : pset) : pset :=
   | PConcat rhs => ps_concat rhs p
   | PPlus rhs => ps_plus p rhs
   end.
+
+(* ------------------------------------------------------------ where the transcription is faithful
+   (outside: Eigen assertion / undefined behaviour in the C++) *)
+(* m.block(r0, c0, h, w) = src needs the block inside m and src of shape (h, w) *)
+Definition blk_ok (m : mx) (r0 c0 h w : nat) (src : mx) : bool :=
+  (mrows src =? h) && (mcols src =? w) && (r0 + h <=? mrows m) && (c0 + w <=? mcols m).
+Definition ps_concat_defined (rhs p : pset) : bool :=
+  let g := base p in
+  let r := base rhs in
+  let n := components r in
+  let nc := components g + n in
+  blk_ok (e_cresize_cols (state_ p) nc) 0 (nc - n) (mrows (state_ p)) n (state_ rhs)
+  && blk_ok (e_cresize_cols (mean_ g) nc) 0 (nc - n) (mrows (mean_ g)) n (mean_ r)
+  && blk_ok (e_cresize_cols (cov_ g) (dcov g * nc)) 0 (dcov g * nc - dcov g * n) (mrows (cov_ g)) (dcov g * n) (cov_ r)
+  && blk_ok (e_cresize_vec (weight_ g) nc) (nc - n) 0 n 1 (weight_ r).
+(* the loop bound `components - 1` of augmentWithNoise is unsigned *)
+Definition gm_augment_defined (q : mx) (g : gm) : bool :=
+  negb (mrows q =? mcols q) || (1 <=? components g).
 
 (* ------------------------------------------------------------ the invariant, executable *)
 Definition wfb (m : mx) : bool :=
